@@ -98,6 +98,10 @@ def gen(chk):
     for wn in range(1, 17):
         for annex in (None, b"\x50" + bytes(40)):
             add("weight", S.build(rng, "p2tr-weight", wn=wn, ht=rng.choice([0, 1]), annex=annex))
+    # budgets used up exactly, one short, one spare (annex sized accordingly)
+    for wn in range(9, 24):
+        for delta in (-1, 0, 1):
+            add("weight", S.build(rng, "p2tr-weight", wn=wn, ht=rng.choice([0, 1]), annex="auto%d" % delta))
     return streams, meta
 
 def main(tier):
